@@ -149,14 +149,37 @@ def run_tlc(module, cfg_text, workdir, files=None, workers=None, timeout=1800, s
     res = TLCResult()
     t = time.time()
     outpath = os.path.join(workdir, module + ".out")
-    with open(outpath, "w") as fh:
-        try:
-            p = subprocess.run(cmd, cwd=workdir, stdout=fh, stderr=subprocess.STDOUT, timeout=timeout,
-                               env=dict(os.environ, JAVA_TOOL_OPTIONS=""))
-            rc = p.returncode
-        except subprocess.TimeoutExpired:
-            subprocess.run(["pkill", "-f", meta], check=False)
-            raise Infra("TLC timed out after %ds on %s" % (timeout, module))
+    # Optional cache of TLC's output (only tools/matrix.py sets VERIF_TLC_CACHE, no registered command does): what TLC prints is a
+    # function of the specification files, the configuration and the world file, none of which depends on the tree under test
+    # unless the world does (then the key differs).
+    ckey, cdir = None, os.environ.get("VERIF_TLC_CACHE")
+    if cdir and files and not simulate:
+        h = hashlib.sha1()
+        for f in sorted(os.listdir(SPEC)):
+            if f.endswith(".tla"):
+                h.update(open(os.path.join(SPEC, f), "rb").read())
+        h.update(("|%s|%s|%s|" % (module, cfg_text, tool_args)).encode())
+        for name in sorted(files or {}):
+            c = (files or {})[name]
+            h.update((name + "|" + (c if isinstance(c, str) else json.dumps(c, sort_keys=True))).encode())
+        ckey = os.path.join(cdir, h.hexdigest() + ".out")
+    if ckey and os.path.exists(ckey):
+        shutil.copy(ckey, outpath)
+        rc = 0 if "Model checking completed. No error has been found." in open(outpath, errors="replace").read()[-20000:] else 12
+        log("TLC %s: output taken from the cache" % module)
+    else:
+        with open(outpath, "w") as fh:
+            try:
+                p = subprocess.run(cmd, cwd=workdir, stdout=fh, stderr=subprocess.STDOUT, timeout=timeout,
+                                   env=dict(os.environ, JAVA_TOOL_OPTIONS=""))
+                rc = p.returncode
+            except subprocess.TimeoutExpired:
+                subprocess.run(["pkill", "-f", meta], check=False)
+                raise Infra("TLC timed out after %ds on %s" % (timeout, module))
+        if ckey and rc in (0, 12):
+            os.makedirs(cdir, exist_ok=True)
+            shutil.copy(outpath, ckey + ".tmp%d" % os.getpid())
+            os.replace(ckey + ".tmp%d" % os.getpid(), ckey)
     res.wall = time.time() - t
     shutil.rmtree(meta, ignore_errors=True)
     tail = []
